@@ -28,7 +28,7 @@ def run_stream(driver, stream, asan, symbolize=False):
     extra = None
     if asan:
         extra = vlib.ASAN_ENV if symbolize else {k: v + ":symbolize=0" for k, v in vlib.ASAN_ENV.items()}
-    return vlib.run([driver, "run"], env=vlib.base_env(extra), stdin=stream, wall_s=1800, max_out=1 << 30)
+    return vlib.run([driver, "run"], env=vlib.base_env(extra), stdin=stream, wall_s=600, max_out=1 << 30)
 
 
 def run_all(driver, asan, hs, symbolize=False):
